@@ -40,7 +40,11 @@ def check(run):
         "framing), DSE v1, DSE v2: three outstanding requests with responses distinguishable on sight (RESULT Void with a payload tag, READY = "
         "a frame of header only, SUPPORTED) answered in all 6 orders, an EVENT interleaved in half of the rounds, and with segment framing "
         "the three responses coalesced into one self-contained segment (header-only frame last / first); every request must receive exactly "
-        "its own response within the read timeout, the event must arrive on the event channel. wiring-sessions: the same real connections with "
+        "its own response within the read timeout, the event must arrive on the event channel. response-kind rounds (v4, v5; all five versions "
+        "in thorough): 19 kinds of response - READY, SUPPORTED, RESULT Void / SetKeyspace, AUTH_CHALLENGE, AUTH_SUCCESS and every ERROR variant "
+        "used here (7 message-only, UNAVAILABLE, ALREADY_EXISTS, UNPREPARED, and the fatal SERVER_ERROR, PROTOCOL_ERROR, AUTH_ERROR) - sent to the "
+        "second of three outstanding requests: that request must receive exactly that frame, also when the client then closes the "
+        "connection because the error is fatal; the other two are untouched and get their own answers. wiring-sessions: the same real connections with "
         "MaxInFlight != MaxPending (2/5, 5/2, 1/3, 3/1): a response of MaxPending pages that nobody reads before the last one has arrived must be "
         "delivered completely and in order (verdicts delivery-failed, wrong-pages, last-not-complete). "
         "non-trivial = at least one request accepted and at least one other kind of outcome; distinct = distinct (N, maxPending, mode, ops)")
